@@ -449,6 +449,9 @@ DC_LITERALS = ['a b', ' a', 'a ', 'a , b', '"a" , "b"', ' "a"', '"a" ', 'a\\b', 
 
 
 
+HAMMER_BUDGET = 12.0        # pyparsing is slow: more library time so that the threads meet inside it often enough
+
+
 def HAMMER(ctx):
     from oslo_utils import strutils
     out = []
